@@ -608,6 +608,20 @@ class World:
             a = menu[world.ch.choose("strat", len(menu), free)] if len(menu) > 1 else menu[0]
             return a, strat_value(a)
 
+        if style == "libnested":
+            # retry_after_or(adaptive(<stub>)): the inner adaptive strategy is never told about
+            # successes / failures by the runner (only the top-level strategy object is)
+            import redress.strategies as _S
+
+            def inner(ctx):
+                a, v = answer()
+                cl = ctx.classification
+                world.trace.append((
+                    "strategy", name, "ctx", ctx.attempt, klass_name(cl.klass),
+                    ticks(cl.retry_after_s), ticks(ctx.prev_sleep_s), ticks(ctx.remaining_s),
+                    ctx.cause, None, a))
+                return v
+            return _S.retry_after_or(_S.adaptive(inner, clock=E.v_monotonic), jitter_s=0.0)
         if style == "libjitter":
             # one of the library's own jittered strategies, observed from outside
             import redress.strategies as _S
